@@ -41,6 +41,8 @@ type JobRun struct {
 	failNextCommit bool
 	c18            *c18Track
 	midErr         *Violation
+	midSeen        bool // the mid-run write of this runFix has happened ...
+	midIdx         int  // ... when this many deliveries of the round had been recorded
 	recMu          sync.Mutex     // transform workers report concurrently
 	consumed       map[string]int // job id -> number of source feed entries delivered by successful incremental runs
 }
@@ -120,6 +122,8 @@ func (r *JobRun) installFaults(jobID string, spec map[string]any) {
 				time.Sleep(time.Millisecond)
 				r.recMu.Lock()
 				r.Stats["mid_run_writes"]++
+				r.midIdx = len(r.delivered) // the delivery in progress was read before the write
+				r.midSeen = true
 				if v != nil && r.midErr == nil {
 					r.midErr = v
 				}
@@ -1113,6 +1117,9 @@ func (r *JobRun) runFixOp(op *Op, i int) *Violation {
 		spec = map[string]any{}
 	}
 	emitted := map[string]bool{}
+	emittedAfter := map[string]bool{} // delivered after the client write that happened in the middle of a run
+	midRound := -1
+	r.midSeen = false
 	lastTok := ""
 	firstEver := false
 	if st, _ := r.H.Full.Sched.GetJobState(id); st == nil || st.ContinuationToken == "" {
@@ -1133,9 +1140,15 @@ func (r *JobRun) runFixOp(op *Op, i int) *Violation {
 			return r.midErr
 		}
 		r.Stats["job_runs"]++
-		for _, b := range r.delivered {
+		if r.midSeen && midRound < 0 {
+			midRound = round
+		}
+		for bi, b := range r.delivered {
 			for _, x := range b {
 				emitted[x] = true
+				if r.midSeen && (round > midRound || bi > r.midIdx) {
+					emittedAfter[x] = true
+				}
 			}
 		}
 		res := r.H.LastResult(id)
@@ -1259,6 +1272,31 @@ func (r *JobRun) runFixOp(op *Op, i int) *Violation {
 			}
 			return viol("C18", "dependency-tracking", cls, "main entity %s (%s) was not emitted by the runs up to the fixpoint; emitted: %v", shortURI(y), want[y], shortAll(sortedKeys(emitted)))
 		}
+	}
+	// what a client wrote in the middle of a run has to be delivered after that write: a main entity that went out
+	// before it (an earlier page of the same run) has to go out again
+	if mw, ok := spec["midWrite"].(map[string]any); ok && r.midSeen {
+		mds := fmt.Sprint(mw["ds"])
+		for _, e := range entsOf(mw["ents"]) {
+			x := CanonSpec(e).ID
+			need := map[string]string{}
+			if mds == main {
+				need[x] = "was written by a client during the run"
+			}
+			for _, joins := range deps[mds] {
+				for y := range reach(r.M, mds, x, joins) {
+					if liveMain[y] {
+						need[y] = fmt.Sprintf("is connected to %s entity %s, which a client wrote during the run", mds, shortURI(x))
+					}
+				}
+			}
+			for _, y := range sortedKeys(need) {
+				if !emittedAfter[y] {
+					return viol("C18", "dependency-tracking", "not-emitted-after-mid-run-write", "main entity %s %s, but no delivery after that write contains it; delivered after the write: %v", shortURI(y), need[y], shortAll(sortedKeys(emittedAfter)))
+				}
+			}
+		}
+		r.Stats["mid_run_write_checks"]++
 	}
 	r.Stats["dependency_checks"]++
 	r.Stats["expected_emissions"] += int64(len(want))
